@@ -38,6 +38,8 @@ FAULT_KINDS = ["ret_err", "raise_value", "raise_type", "raise_value_sub", "raise
                "raise_value_noargs"]
 
 ERR = "ERR"
+UNBOUND_NAMES = {"nofn", "nopred", "bit_length", "real", "count", "index", "conjugate", "is_integer",
+                 "isdigit", "upper"}
 
 
 # --------------------------------------------------------------------------------------------
@@ -63,7 +65,10 @@ class AstGen:
         pool = INT_NAMES if ty == "int" else BOOL_NAMES
         name = r.choice(pool[: self.cfg["n_names"]])
         if self.cfg["unbound_share"] and r.random() < self.cfg["unbound_share"]:
-            name = "nofn" if ty == "int" else "nopred"
+            # bound to no function -- also when the name happens to be spelled like a method of
+            # the Python class that implements the receiver's CEL type
+            name = r.choice(["nofn", "nofn", "bit_length", "real", "count", "index", "conjugate"]) \
+                if ty == "int" else r.choice(["nopred", "nopred", "is_integer", "isdigit", "upper"])
         nargs = r.choice([0, 1, 1, 2, 2, 3])
         # (the root-scope spelling `.f(a)` is not generated: the statement names f(a, b) and a.f(b),
         # and the interpreter does not implement calls in that form at all -- it yields the function)
@@ -203,9 +208,21 @@ def generate(seed: int, tier: str = "quick") -> Dict[str, Any]:
     }
     programs = []
     for i in range(cfg["n_programs"]):
+        if programs and rw.random() < 0.2:
+            # the application builds another program from the *same* Environment and AST object,
+            # binding new callables (and a new fault plan) under the same names
+            j = rw.randrange(len(programs))
+            src = programs[j]
+            faults2: Dict[str, Dict[str, Any]] = {}
+            if cfg["fault_class"] == "faults":
+                for n in src["supplied"]:
+                    if rf.random() < 0.45:
+                        faults2[n] = {"kind": rf.choice(FAULT_KINDS), "when": rf.choice([None, None, 0, 1, 2, 3])}
+            programs.append(dict(src, faults=faults2, reuse_of=src.get("reuse_of", j)))
+            continue
         g = AstGen(rw, cfg)
         ast = g.int_(cfg["depth"]) if rw.random() < 0.45 else g.bool_(cfg["depth"])
-        names = sorted({c[1] for c in calls_in(ast)} - {"nofn", "nopred"})
+        names = sorted({c[1] for c in calls_in(ast)} - UNBOUND_NAMES)
         style = rw.choice(["dict", "dict", "list"])
         kinds = {}
         for n in names:
@@ -296,7 +313,8 @@ def cel(node: Any) -> str:
 
 
 def is_bool_name(name: str) -> bool:
-    return name in BOOL_NAMES or name in ("nopred", "contains", "startsWith", "matches")
+    return name in BOOL_NAMES or name in ("nopred", "contains", "startsWith", "matches",
+                                          "is_integer", "isdigit", "upper")
 
 
 def substitute(node: Any, prog: Dict[str, Any]) -> Any:
@@ -573,13 +591,13 @@ class Model:
 # execution
 
 
-def _functions_for(prog: Dict[str, Any]) -> Any:
+def _functions_for(prog: Dict[str, Any], tag: Any = None) -> Any:
     from . import peers
 
     ops = {n: peers.operator_override(n) for n in prog.get("ops", [])}
     if not prog["supplied"] and not ops:
         return None if prog.get("empty_as") != "empty" else ({} if prog["style"] == "dict" else [])
-    fns = {n: peers.make_callable(prog["kinds"][n], n) for n in prog["supplied"]}
+    fns = {n: peers.make_callable(prog["kinds"][n], n, tag) for n in prog["supplied"]}
     if prog["style"] == "list" and not ops:
         return list(fns.values())
     fns.update(ops)  # operator names are not identifiers: only the mapping form can bind them
@@ -598,7 +616,8 @@ def exec_programs(trace: Dict[str, Any]) -> Dict[str, Any]:
 
     base_snapshot = {k: id(v) for k, v in ev.base_functions.items()}
     records = []
-    for prog in trace["programs"]:
+    built: Dict[int, Any] = {}
+    for pi, prog in enumerate(trace["programs"]):
         runner = celpy.CompiledRunner if prog["runner"] == "C" else celpy.InterpretedRunner
         text = cel(prog["ast"])
         sub_text = substitute(prog["ast"], prog)
@@ -606,13 +625,19 @@ def exec_programs(trace: Dict[str, Any]) -> Dict[str, Any]:
         peers.reset(prog["faults"])
 
         def host() -> Any:
-            env = celpy.Environment(runner_class=runner)
-            return env.program(env.compile(text), functions=_functions_for(prog)).evaluate(
+            if prog.get("reuse_of") in built:
+                env, ast = built[prog["reuse_of"]]
+            else:
+                env = celpy.Environment(runner_class=runner)
+                ast = env.compile(text)
+                built[pi] = (env, ast)
+            return env.program(ast, functions=_functions_for(prog, pi)).evaluate(
                 {k: celpy.celtypes.IntType(v) for k, v in prog.get("bindings", {}).items()})
 
         fp, _ = kit.outcome(host)
         rec["fp"] = fp
         rec["calls"] = [list(c) for c in peers.HISTORY]
+        rec["stale"] = [[c[0], t] for c, t in zip(peers.HISTORY, peers.TAGS) if t is not None and t != pi]
         rec["fired"] = dict(peers.FIRED)
         peers.reset({})
 
@@ -713,6 +738,11 @@ def execute(trace: Dict[str, Any]) -> Dict[str, Any]:
             violations.append(dict(base, oracle="S2-host-function-in-base-functions",
                                    detail=rec["base_changed"],
                                    sig={"oracle": "S2-host-function-in-base-functions"}))
+        if rec.get("stale"):
+            violations.append(dict(base, oracle="S2-callable-of-another-program-invoked",
+                                   detail=rec["stale"][:4], text=rec["text"],
+                                   sig={"oracle": "S2-callable-of-another-program-invoked",
+                                        "runner": prog["runner"]}))
         if rec["sub_calls"]:
             # the substitute has no host calls and was given no functions: a stub can only have
             # been reached through a registration that outlived the program it was supplied to
@@ -737,7 +767,7 @@ def execute(trace: Dict[str, Any]) -> Dict[str, Any]:
                 any(c2[1] in SHADOW and c2[1] in p2["supplied"] for c2 in calls_in(p2["ast"]))
                 for p2 in trace["programs"][:i]):
             stats["probe_builtin_after_override"] = stats.get("probe_builtin_after_override", 0) + 1
-        if any(c[1] in ("nofn", "nopred") or (c[1] not in prog["supplied"] and c[1] not in SHADOW)
+        if any(c[1] in UNBOUND_NAMES or (c[1] not in prog["supplied"] and c[1] not in SHADOW)
                for c in calls):
             stats["probe_unbound_name_called"] = stats.get("probe_unbound_name_called", 0) + 1
         if model.may:
